@@ -30,7 +30,7 @@ class C19(BaseCheck):
   ASSUMPTIONS = ('member znodes get fresh sequential names within one incarnation of the watched path (as '
                  'ZooKeeper sequential nodes do); names can repeat only after the path itself was re-created',
                  'member data is well-formed JSON')
-  QUICK_CASES = 240
+  QUICK_CASES = 960
   THOROUGH_CASES = 6000
   QUICK_WALL = 50
   THOROUGH_WALL = 420
